@@ -521,4 +521,15 @@ MUTANTS += [
              (next_node = _consumer->next.load(std::memory_order_acquire)))""",
      "new": """      while (false && read_result.allocation && !read_result.read_pos &&
              (next_node = _consumer->next.load(std::memory_order_acquire)))"""},
+    {"id": "c10-revert-f22", "props": ["C10"], "file": "quill/backend/BackendWorker.h",
+     "desc": "a sink exception escapes the backtrace replay callback again (finding F22 comes back)",
+     "old": """        QUILL_TRY { _dispatch_transit_event_to_sinks(te, thread_id, thread_name); }
+#if !defined(QUILL_NO_EXCEPTIONS)
+        QUILL_CATCH(std::exception const& e) { _options.error_notifier(e.what()); }
+        QUILL_CATCH_ALL()
+        {
+          _options.error_notifier(std::string{"Caught unhandled exception."});
+        } // clang-format on
+#endif""",
+     "new": """        _dispatch_transit_event_to_sinks(te, thread_id, thread_name);"""},
 ]
